@@ -66,8 +66,9 @@ class ThreadPath:
         return out
 
 
-def thread_paths(repo, prefix):
-    """All action sequences of one constructor call (thread id  <prefix>_tid)."""
+def thread_paths(repo, prefix, fq=None):
+    """All action sequences of one call of the constructor (or of another method ``fq``) by thread  <prefix>_tid."""
+    fq = fq or INIT
     abstracted_lines = set()
     out = []
 
@@ -76,8 +77,8 @@ def thread_paths(repo, prefix):
         tid = ctx.const(prefix + '_tid', z3.IntSort())
         I.hooks['thread_ident'] = lambda I_: tid
         actions = []
-        fi = I.lookup_fq(INIT)
-        cls = fi.cls
+        fi = I.lookup_fq(fq)
+        cls = I.lookup_fq(INIT).cls
         nreads = [0]
 
         def class_get(I_, c, name):
@@ -134,7 +135,8 @@ def thread_paths(repo, prefix):
         self_obj = Obj(cls)
         kwargs = {}
         try:
-            I.call_function(fi, [self_obj], kwargs, force_body=True)
+            nparams = len([a for a in fi.node.args.args]) if hasattr(fi.node, 'args') else 1
+            I.call_function(fi, [self_obj] * min(1, nparams), kwargs, force_body=True)
             outcome = 'return'
         except PyExc as e:
             outcome = 'raise ' + e.cls.name
@@ -174,7 +176,7 @@ def _calls_method_touching_shared(st, cls):
             v = v.func
         if isinstance(v, PropertyVal):
             v = v.fget
-        if isinstance(v, FuncInfo) and v.name != '__init__':
+        if isinstance(v, FuncInfo) and v.name != '__init__' and v.node is not getattr(st, '_own_function', None):
             if mentions(v.node):
                 return True
             for n in ast.walk(v.node):
@@ -311,6 +313,56 @@ def interference(h):
         raise Unsupported('no interleavings generated (zero obligations is an error)')
 
 
+def _other_functions_mentioning_shared(repo):
+    """Every function of the store module other than the constructor whose body mentions the ownership attribute."""
+    mod = repo.module('AEIC.trajectories.store')
+    out = []
+    for cls in [n for n in ast.walk(mod.tree) if isinstance(n, ast.ClassDef)]:
+        for fn in cls.body:
+            if isinstance(fn, (ast.FunctionDef, ast.AsyncFunctionDef)) and mentions(fn) and not (cls.name == 'TrajectoryStore' and fn.name == '__init__'):
+                out.append((cls.name, fn.name))
+    for fn in mod.tree.body:
+        if isinstance(fn, (ast.FunctionDef, ast.AsyncFunctionDef)) and mentions(fn):
+            out.append((None, fn.name))
+    return out
+
+
+@unit('C20', 'other-methods.leave-the-ownership-to-the-constructor', ['AEIC.trajectories.store:TrajectoryStore.close'],
+      replay='contracts.C20:replay_sequential')
+def other_methods(h):
+    """The two constructor units are an induction over constructor calls; between them, any other method of the store may
+    run (close, sync, add, ...).  Obligation: none of them changes the ownership attribute -- either it does not mention it
+    at all (syntactic frame), or, if it does, every action sequence of it preserves the invariant
+    ``first_owner is not None => active_in_thread == first_owner`` from any state (so that 'before / after close' is covered)."""
+    touching = _other_functions_mentioning_shared(h.repo)
+    h.ctx.notes.append(f'functions other than the constructor that mention {SHARED}: {touching or "none"}')
+    h.ensure('every-other-function-examined', True)
+    if not touching:
+        h.ensure('ownership-invariant-preserved-by-every-other-method', True, note='no other function mentions the attribute')
+        return
+    s0 = SymOpt(h.bool('shared0_none'), h.int('shared0_val'))
+    o0 = SymOpt(h.bool('owner0_none'), h.int('owner0_val'))
+    h.assume(inv(s0, o0), 'representation invariant on entry: first_owner set => active_in_thread == first_owner')
+    for cname, fname in touching:
+        if cname != 'TrajectoryStore':
+            raise Unsupported(f'{cname or "module"}.{fname} mentions {SHARED}')
+        paths, _ = thread_paths(h.repo, 'A', fq=f'AEIC.trajectories.store:TrajectoryStore.{fname}')
+        for p in paths:
+            if not p.actions:
+                continue
+            cons, shared = [], s0
+            for a in p.actions:
+                if a['kind'] == 'read':
+                    cons.append(opt_eq(a['val'], shared))
+                else:
+                    shared = a['val']
+            hyp = z3.And(*(p.pc + cons)) if (p.pc or cons) else z3.BoolVal(True)
+            h.ctx.named['method'] = z3.StringVal(fname)
+            h.ensure('ownership-invariant-preserved-by-every-other-method', z3.Implies(hyp, inv(shared, o0)),
+                     note=f'{fname}: actions={[(a["kind"], a["line"]) for a in p.actions]} outcome={p.outcome}')
+    h.ctx.named.pop('method', None)
+
+
 # ------------------------------------------------------------------------------------------------
 def sequential_faults():
     """No racing needed: thread T1 owns a store, a later constructor call of T1 fails (open on a file that is not
@@ -366,6 +418,65 @@ def sequential_faults():
                 pass
         TrajectoryStore.active_in_thread = None
         shutil.rmtree(tmp, ignore_errors=True)
+
+
+def closed_then_other_thread():
+    """Thread T1 creates stores and closes them (an in-memory one, a file-backed one, both) and stays alive; a second
+    thread must still be refused."""
+    import os
+    import shutil
+    import tempfile
+    import threading
+    from AEIC.trajectories.store import TrajectoryStore
+    problems = []
+    for what in ('in-memory store closed', 'file-backed store closed', 'in-memory store closed while a file-backed one is open'):
+        tmp = tempfile.mkdtemp(prefix='c20c-', dir=os.environ.get('VERIF_SCRATCH'))
+        TrajectoryStore.active_in_thread = None
+        keep = {}
+        done, release = threading.Event(), threading.Event()
+
+        def t1():
+            try:
+                if what.startswith('in-memory'):
+                    if 'while' in what:
+                        keep['open'] = TrajectoryStore.create(base_file=os.path.join(tmp, 'one.nc'))
+                    TrajectoryStore.create().close()
+                else:
+                    TrajectoryStore.create(base_file=os.path.join(tmp, 'one.nc')).close()
+            except Exception as e:   # noqa
+                keep['t1_error'] = f'{type(e).__name__}: {e}'
+            done.set()
+            release.wait(60)
+
+        def t2():
+            try:
+                keep['s2'] = TrajectoryStore.create()
+                keep['t2'] = 'created'
+            except Exception as e:   # noqa
+                keep['t2'] = 'refused: ' + type(e).__name__
+        a = threading.Thread(target=t1)
+        a.start()
+        done.wait(60)
+        b = threading.Thread(target=t2)
+        b.start()
+        b.join(60)
+        release.set()
+        a.join(60)
+        if keep.get('t2') == 'created':
+            problems.append(f'{what} by the owning thread (still alive): a second thread was then allowed to create a store')
+        for k in ('open', 's2'):
+            try:
+                keep[k].close()
+            except Exception:   # noqa
+                pass
+        TrajectoryStore.active_in_thread = None
+        shutil.rmtree(tmp, ignore_errors=True)
+    return problems
+
+
+def replay_sequential(payload):
+    seq = closed_then_other_thread() + sequential_faults()
+    return dict(reproduced=bool(seq), observed=seq[:4], required='once a thread has created a store, every other thread is refused -- before and after close')
 
 
 def replay(payload):
